@@ -278,7 +278,7 @@ func init() {
 		Custom: customC14,
 	})
 	addSpec(&Spec{ID: "C15", Title: "a struct regenerated from a file reads that file back faithfully", Level: "translation_validation",
-		Rule: "programs = every non-repeated struct shape (leaf types cycling over int32, int64, float32, float64, bool, string; uniquely named groups; half of them with column tags that differ from the Go field names: lower-case ASCII, a lower-case non-ASCII first letter, snake case) with <= 4 nodes plus a fixed spread of 80 five-node shapes (quick) or <= 5 nodes plus 700 six-node shapes (thorough), " +
+		Rule: "programs = every non-repeated struct shape (leaf types cycling over int32, int64, float32, float64, bool, string; uniquely named groups; half of them with column tags that differ from the Go field names: lower-case ASCII, a lower-case non-ASCII first letter, snake case) with <= 4 nodes plus a fixed spread of 80 five-node shapes (quick) or <= 5 nodes plus 2500 six-node shapes (thorough), " +
 			"minus structures listed as C05 findings; three stages: the generated writer writes 3 files per shape (structural enumeration, extremes, random multi-row-group; for one shape in eight a fourth file of hundreds to thousands of one-record row groups whose footer exceeds 64 KiB, for one in 64 1 MiB), parquetgen -parquet regenerates struct + reader from the first (or, where present, the fourth) file, " +
 			"the regenerated reader reads all three files; oracle = regenerated struct has the same column paths, nesting, optionality and physical types (by reflection under the README mapping) and returns exactly the written values; distinct = shape signature; non-trivial = shape has a group",
 		EvalCounter:  "cases",
